@@ -63,7 +63,8 @@ fn ws(rng: &mut Rng, min1: bool) -> String {
 
 pub fn esc_str(rng: &mut Rng, b: &[u8]) -> String {
     let mut s = String::from("\"");
-    for &c in b { match c { b'\n' => s.push_str("\\n"), b'\r' => s.push_str("\\r"), b'\t' => if rng.bool() { s.push_str("\\t") } else { s.push('\t') }, 0 => s.push_str("\\0"), b'"' => s.push_str("\\\""), b'\\' => s.push_str("\\\\"), c => s.push(c as char) } }
+    let text = String::from_utf8(b.to_vec()).expect("generated literals are UTF-8");
+    for c in text.chars() { match c { '\n' => s.push_str("\\n"), '\r' => s.push_str("\\r"), '\t' => if rng.bool() { s.push_str("\\t") } else { s.push('\t') }, '\0' => s.push_str("\\0"), '"' => s.push_str("\\\""), '\\' => s.push_str("\\\\"), c => s.push(c) } }
     s.push('"'); s
 }
 
@@ -125,11 +126,13 @@ pub fn gen_instr(rng: &mut Rng, labels: &[String]) -> GStmt {
     GStmt { labels: vec![], mnem: m.to_string(), ops, size: 1 }
 }
 
+thread_local! { pub static NON_ASCII_LITERALS: std::cell::Cell<bool> = const { std::cell::Cell::new(false) }; }
+
 pub fn gen_data(rng: &mut Rng, labels: &[String]) -> GStmt {
     match rng.below(4) {
         0 => GStmt { labels: vec![], mnem: ".fill".into(), ops: vec![if !labels.is_empty() && rng.chance(1, 3) { Op::Lbl(rng.pick(labels).clone()) } else if rng.bool() { Op::ImmU(rng.u16() as u32) } else { Op::ImmU(((-(rng.below(32768) as i32)) as i16 as u16) as u32) }], size: 1 },
         1 => { let n = 1 + rng.below(6) as u32; GStmt { labels: vec![], mnem: ".blkw".into(), ops: vec![Op::ImmU(n)], size: n } }
-        _ => { let n = rng.below(8) as usize; let b: Vec<u8> = (0..n).map(|_| *rng.pick(&[b'a', b'\'', b'Z', b' ', b'"', b'\\', b'\n', b'\t', b'\r', 0u8, b';', b'#', b'~', b'0'])).collect(); let sz = b.len() as u32 + 1; GStmt { labels: vec![], mnem: ".stringz".into(), ops: vec![Op::Str(b)], size: sz } }
+        _ => { let n = rng.below(8) as usize; let nonascii = NON_ASCII_LITERALS.with(|c| c.get()) && rng.chance(1, 3); let t: String = (0..n).map(|_| if nonascii && rng.chance(1, 3) { *rng.pick(&['é', '→', '😀', 'ß', '\u{7f}', '\u{a0}']) } else { *rng.pick(&['a', '\'', 'Z', ' ', '"', '\\', '\n', '\t', '\r', '\0', ';', '#', '~', '0']) }).collect(); let b: Vec<u8> = t.into_bytes(); let sz = b.len() as u32 + 1; GStmt { labels: vec![], mnem: ".stringz".into(), ops: vec![Op::Str(b)], size: sz } }
     }
 }
 
